@@ -90,3 +90,20 @@ Example C17_phase0_example :
   p_sentence (phase0 (s2l "Either `__import__('os').system('x')` or nothing. More."))
   = Some (s2l "Either `import'os'.system'x'` or nothing.").
 Proof. vm_compute. reflexivity. Qed.
+
+(* ---- importlib.util.find_spec imports (executes) every PARENT package of a dotted name.  Every call of the package is listed
+   (regenerated on every run) and must be one of: a literal top-level name; the top-level part of a name (`names[0]`); a name that is
+   already in sys.modules; PathFinder.find_spec, which imports nothing; the module named on the command line (--model-path etc.: an
+   explicit request, not analysed source).  A new find_spec on a name taken from analysed source breaks the theorem (fix 74a4e6e
+   removed the one the pinned tree had). *)
+Definition approved_find_spec : list string := [
+  "cdd.shared.ast_utils|<module>|find_spec('yaml')"; "cdd.shared.ast_utils|<module>|find_spec('pydantic')";
+  "cdd.shared.ast_utils|<module>|find_spec('sqlalchemy')"; "cdd.shared.ast_utils|<module>|find_spec('typing_extensions')";
+  "cdd.shared.emit.file|<module>|find_spec('black')";
+  "cdd.shared.pure_utils|find_spec_sans_import|find_spec(names[0])";
+  "cdd.shared.pure_utils|find_spec_sans_import|find_spec(name)";
+  "cdd.shared.pure_utils|find_spec_sans_import|PathFinder.find_spec(name, spec.submodule_search_locations)";
+  "cdd.shared.pure_utils|filename_from_mod_or_filename|find_spec(mod_or_filename)"
+]%string.
+Theorem C17_find_spec_calls : forallb (fun c => existsb (String.eqb c) approved_find_spec) find_spec_calls = true.
+Proof. vm_compute. reflexivity. Qed.
